@@ -58,7 +58,7 @@ class A(Adapter):
     serves = {"C01", "C04", "C05", "C06", "C08", "C09", "C10", "C11", "C12"}
     terminate_on_invalid = False
     max_steps = 110
-    ops = ("state", "step", "judge", "instance")
+    ops = ("state", "step", "judge", "instance", "bounds")
     state_fields = ["coordinates", "demands", "win_start", "win_end", "coef_early", "coef_late", "local_times",
                     "positions", "capacities", "distances", "time_penalties", "order", "step_count", "action_mask"]
 
@@ -103,7 +103,12 @@ class A(Adapter):
                        "f32": True, "map_max": rat(float(g._map_max)), "demand_max": int(g._customer_demand_max),
                        "max_start_window": rat(float(g._max_start_window)),
                        "window_length": rat(float(g._time_window_length)),
-                       "full_load": kind != "paper" and bool(kind[4])}
+                       "full_load": kind != "paper" and bool(kind[4]),
+                       # read by multi_cvrp.bounds (C01) only: upper ends of the coefficient ranges and an upper bound on
+                       # the float32 distance between two points of the map (float32(map_max * sqrt 2))
+                       "coef_early_max": rat(float(np.float32(g._early_coef_rand[1]))),
+                       "coef_late_max": rat(float(np.float32(g._late_coef_rand[1]))),
+                       "dist_max": rat(float(np.float32(float(g._map_max) * np.sqrt(2.0))))}
                 out.append(Config(f"multi_cvrp-{tag}-n{n}-v{v}-c{cfg['max_capacity']}-{'dense' if dense else 'sparse'}",
                                   build, cfg, dense=dense, n=n, v=v, partner=partner,
                                   constant_generator=False))
